@@ -189,3 +189,74 @@ Proof.
   destruct (td T S decays HI (Datatypes.S (csize c)) c (Nat.lt_succ_diag_r _) Hu Ho Hm) as (d' & E & Hs).
   exists decays, d'. unfold chain_from_dict. rewrite B, Hm. split; [reflexivity|]. split; assumption.
 Qed.
+
+(* ------------------------------------------------------------------ consequences *)
+From DL Require Import Fmt.DescFormat Decay.DescriptorProofs.
+
+(* more fuel changes nothing once to_dict has returned *)
+Lemma mapM_mono {A B} (f g : A -> option B) l ys :
+  (forall x y, In x l -> f x = Some y -> g x = Some y) -> mapM f l = Some ys -> mapM g l = Some ys.
+Proof.
+  revert ys. induction l as [|x r IH]; intros ys H E; cbn [mapM] in *; [exact E|].
+  destruct (f x) as [y|] eqn:Ef; [|discriminate]. rewrite (H x y (or_introl eq_refl) Ef).
+  destruct (mapM f r) as [ys'|] eqn:Er; [|discriminate].
+  rewrite (IH ys'); [exact E | intros x0 y0 Hx; apply H; right; exact Hx | reflexivity].
+Qed.
+
+Lemma chain_to_dict_mono decays : forall n m d, chain_to_dict n decays m = Some d ->
+  forall n', n <= n' -> chain_to_dict n' decays m = Some d.
+Proof.
+  induction n as [|n IH]; intros m d H n' Hle; [discriminate|].
+  destruct n' as [|n']; [lia|]. cbn [chain_to_dict] in *.
+  destruct (pd_get m decays) as [md|]; [|discriminate].
+  match type of H with match ?X with _ => _ end = _ => destruct X as [fs|] eqn:E; [|discriminate] end.
+  erewrite mapM_mono; [exact H | | exact E].
+  intros x y _ Hx. cbn beta in *. destruct (pd_mem x decays); [|exact Hx].
+  destruct (chain_to_dict n decays x) as [c|] eqn:Ec; [|discriminate]. rewrite (IH _ _ Ec n') by lia. exact Hx.
+Qed.
+
+Lemma Forall2_impl_in {A B} (R R' : A -> B -> Prop) l l' :
+  (forall a b, In a l -> R a b -> R' a b) -> Forall2 R l l' -> Forall2 R' l l'.
+Proof.
+  intros H F. induction F as [|a b l l' Hab F IH]; constructor.
+  - apply H; [left; reflexivity | exact Hab].
+  - apply IH. intros a0 b0 Hin. apply H. right. exact Hin.
+Qed.
+
+(* sim refines the order-insensitive equivalence of the descriptor theorems (C13) *)
+Lemma sim_ceq : forall n c c', csize c < n -> sim c c' -> ceq c c'.
+Proof.
+  induction n as [|n IH]; intros c c' Hn Hs; [lia|].
+  inversion Hs as [m bf fs fsp fs' meta Hperm Hf]; subst. econstructor; [exact Hperm|].
+  eapply Forall2_impl_in; [|exact Hf]. intros a b Hin Hab.
+  assert (Hin' : In a fs) by (eapply Permutation_in; [apply Permutation_sym; exact Hperm | exact Hin]).
+  inversion Hab as [nm|c1 c1' Hs1]; subst; constructor.
+  apply IH; [|exact Hs1]. pose proof (csize_sub m bf fs meta c1 Hin'). lia.
+Qed.
+
+(* the one-line descriptor of the class form of a parser-built single-line chain is the descriptor of the parser's own
+   dictionary: DecayChain.from_dict(build_decay_chains(m)).to_string() is the one string expand_decay_modes(m) lists *)
+Theorem parser_chain_to_string cfg T S m c : unfolds T S m c -> one_mode c -> ~ In m S -> csize c < 100 ->
+  exists ch, chain_from_dict c = COk ch /\ chain_to_string cfg ch = VStr (descr cfg true c)
+             /\ expand cfg [] true c = [descr cfg true c].
+Proof.
+  intros Hu Ho HS Hsz. destruct (parser_chain_roundtrip T S m c Hu Ho HS) as (decays & d' & E1 & E2 & Hs).
+  eexists. split; [exact E1|].
+  assert (E100 : chain_to_dict 100 decays m = Some d') by (apply (chain_to_dict_mono decays _ _ _ E2); lia).
+  assert (Hc : ceq c d') by (apply (sim_ceq (Datatypes.S (csize c))); [lia | exact Hs]).
+  split.
+  - rewrite (to_string_is_descr cfg {| c_mother := m; c_decays := decays |} d' E100). f_equal. symmetry.
+    apply (descr_order_canonical cfg (Datatypes.S (csz c))); [lia | exact Hc].
+  - apply expand_single. clear - Ho. revert Ho.
+    apply (ExpandProofs.cdict_ind' (fun c => one_mode c -> single c) (fun md => one_mode_fs (cm_fs md) -> Forall (fun f => match f with ChainDict.FName _ => True | FSub c' => single c' end) (cm_fs md))
+             (fun f => match f with ChainDict.FName _ => True | FSub c' => one_mode c' -> single c' end)).
+    + intros m0 ms HF Ho. destruct ms as [|[bf fs meta] [|? ?]]; try (simpl in Ho; contradiction).
+      rewrite one_mode_unfold in Ho. inversion HF as [|x l Hx _]; subst. specialize (Hx Ho). cbn [cm_fs] in Hx.
+      constructor. eapply Forall_impl; [|exact Hx]. intros [nm|c']; intro Hs; constructor; exact Hs.
+    + intros bf fs meta HF Ho. cbn [cm_fs] in *. induction HF as [|f r Hf HF IH]; [constructor|].
+      destruct f as [nm|c']; cbn in Ho.
+      * constructor; [exact I | apply IH; exact Ho].
+      * destruct Ho as [Ho1 Ho2]. constructor; [apply Hf; exact Ho1 | apply IH; exact Ho2].
+    + intros; exact I.
+    + intros c' IH. exact IH.
+Qed.
